@@ -579,15 +579,13 @@ static void run_zone(const Zone& z, hz::Result& r) {
       }
     }
     // the last representable civil second of the zone converts exactly; one later saturates
+    // (judged by the reference: when an overlap straddles max() that civil second is REPEATED and
+    // convert() correctly returns the earlier reading)
     ref::RType lt = c.rz.at(IMAX);
     i128 last_cs = IMAX + lt.off;
     for (int d = 0; d <= 1; ++d) {
-      cctz::civil_second ccs;
-      if (!to_cctz(ref::civil_from_secs(last_cs + d), &ccs)) continue;
-      long long cv = glue::unix_of(cctz::convert(ccs, c.tz));
-      r.count("evaluations");
-      r.cls(d ? "C10:one-past-last" : "C10:last-representable");
-      if (cv != INT64_MAX) r.violation("C10:last-civil", "zone " + c.z->id + ": last representable civil second +" + std::to_string(d) + " converts to " + std::to_string(cv), replay_args(c, "cs", last_cs + d));
+      CivRes cr = check_c02_at(c, last_cs + d, r, true, "C10");
+      if (cr.evaluated) r.cls(d ? "C10:one-past-last" : "C10:last-representable");
     }
   } else if (g_prop == "C11") {
     check_c11(c, I, r);
